@@ -250,6 +250,7 @@ func rulesC20(c *Ctx) {
 	c.Floor("C20.FORWARD", 60)
 	ruleC20Leaf(c, nts)
 	ruleNeverWritten(c, "C20.TRANSFORM", nts)
+	ruleSubQueryWhole(c, "C20.SUBQUERYWHOLE")
 	ruleC20Validator(c)
 	ruleC20SetNames(c)
 	ruleC20SortSource(c)
